@@ -212,3 +212,22 @@ func (p *Prog) FieldAccesses(fn *ssa.Function, typeName, field string, write boo
 	}
 	return out
 }
+
+// heldOK: every target is reached with a mutex matching mutexPat held at least in the given mode
+// (quiet variant of Held: reports nothing).
+func (c *Ctx) heldOK(fn *ssa.Function, targets []ssa.Instruction, mutexPat string, mode int) bool {
+	pp := P(mutexPat)
+	st := c.LockStates(fn, nil)
+	for _, t := range targets {
+		ok := false
+		for k, v := range st[t] {
+			if pp.Match(k) && v >= mode {
+				ok = true
+			}
+		}
+		if !ok {
+			return false
+		}
+	}
+	return true
+}
